@@ -140,3 +140,23 @@ for _w, _wn in ((0, "read_exactly"), (1, "read_until"), (2, "readiness_event")):
           symbolic="requested count, kernel read verdicts/bytes, whether each callback closes (and frees) the socket, loop add verdict",
           assumes=["the read callback closes at the latest on its 2nd invocation (bounds the read loop)"],
           bounds="M=%d; entry point %s; heap-allocated socket object really freed by the closing callback" % (_m, _wn), **_cfg)
+
+# ------------------------------------------------------------------------------------------------ linux_io.c leaves (C07 C08 C11)
+_lio = dict(harness="harness/linux_io_leaves.c", unwind=34,
+            stubs=["close/fcntl/getsockname/setsockopt/accept: symbolic results over a ghost descriptor table",
+                   "alloc_jet_peer/buffered_socket_acquire/alloc_http_connection: may return NULL (symbolic)",
+                   "buffered_socket_init/init_socket_peer/init_http_connection: record ownership only", "log_err: empty"])
+O(id="C07.fd_hygiene_jet", props=["C07"], entry="harness_fd_jet", reach=["jet_established", "jet_setup_failed"],
+  functions=["handle_new_jet_connection", "prepare_peer_socket", "set_fd_non_blocking", "configure_keepalive"],
+  symbolic="which of fcntl(GET/SET), getsockname, the k-th setsockopt, peer allocation, socket allocation fails; address family",
+  assumes=[], bounds="one accepted descriptor", **_lio)
+O(id="C07.fd_hygiene_http", props=["C07", "C13"], entry="harness_fd_http", reach=["http_established", "http_setup_failed"],
+  functions=["handle_http", "prepare_peer_socket", "set_fd_non_blocking", "configure_keepalive"],
+  symbolic="which of fcntl(GET/SET), getsockname, the k-th setsockopt, connection allocation, socket allocation, connection init fails; address family",
+  assumes=[], bounds="one accepted descriptor", **_lio)
+O(id="C11.accept_errors", props=["C11"], entry="harness_accept", reach=["transient_error", "accepted"],
+  functions=["accept_common"], symbolic="errno of a failing first accept (all int values) or a successful accept followed by EAGAIN",
+  assumes=[], bounds="two accept calls", **_lio)
+O(id="C08.origin", props=["C08"], entry="harness_origin", reach=["af_unix", "v6_local"],
+  functions=["is_localhost"], symbolic="first 32 bytes of the sockaddr_storage (family, port, address)",
+  assumes=[], bounds="none", **_lio)
